@@ -431,3 +431,39 @@ func (n *Net) Dials(addr string) int {
 	defer n.mu.Unlock()
 	return n.dials[addr]
 }
+
+// CutFired reports whether a planned cut of this endpoint's inbound direction has been delivered.
+func (c *MemConn) CutFired() bool {
+	c.r.mu.Lock()
+	defer c.r.mu.Unlock()
+	return c.r.cutDone
+}
+
+// ParseFrames splits a byte transcript into the complete length-prefixed frames it contains
+// (the framing of socket.NewMessages: uvarint length, then payload).
+func ParseFrames(b []byte) (frames [][]byte) {
+	for len(b) > 0 {
+		var l uint64
+		var s uint
+		i := 0
+		for {
+			if i >= len(b) || i > 9 {
+				return
+			}
+			c := b[i]
+			i++
+			if c < 0x80 {
+				l |= uint64(c) << s
+				break
+			}
+			l |= uint64(c&0x7f) << s
+			s += 7
+		}
+		if uint64(len(b)-i) < l {
+			return
+		}
+		frames = append(frames, b[i:i+int(l)])
+		b = b[i+int(l):]
+	}
+	return
+}
